@@ -192,6 +192,9 @@ func (x *Exec) callEffects(c *ssa.CallCommon, visiting map[*ssa.Function]bool) *
 		if con := x.eng.ifaceContract(c); con != nil {
 			return x.contractEffects(con, c.Signature())
 		}
+		if c.Method != nil && noEffectCallee(c.Method.FullName()) {
+			return e // metrics counters, loggers, Stringers behind an interface (T1/T2)
+		}
 		e.all = true
 		return e
 	}
@@ -357,6 +360,9 @@ func (x *Exec) staticType(n ast.Expr, scope map[string]types.Type, con *Contract
 		return nil
 	case *ast.ParenExpr:
 		return x.staticType(v.X, scope, con)
+	case *ast.SliceExpr:
+		// s[lo:hi] has the type of s (slices; arrays are not sliced in modifies clauses)
+		return x.staticType(v.X, scope, con)
 	case *ast.StarExpr:
 		if t := x.staticType(v.X, scope, con); t != nil {
 			if p, ok := t.Underlying().(*types.Pointer); ok {
@@ -441,13 +447,34 @@ func (x *Exec) loopHead(fr *Frame, st *State, b *ssa.BasicBlock, pred *ssa.Basic
 	}
 	if k, ok := st.dbg["__k"]; ok && hasRangeIndex(phis) {
 		st.dbg[fmt.Sprintf("__k%d", ord)] = k // $k<ord>: progress of loop <ord>, visible inside nested loops
+		// $n: the length of the ranged-over slice/array/string (evaluated once, before the loop): the bound the index is compared with
+		for _, in := range b.Instrs {
+			if bo, ok := in.(*ssa.BinOp); ok && bo.Op == token.LSS {
+				if n := x.get(st, bo.Y); n.K == KInt {
+					st.dbg["__n"] = n
+					st.dbg[fmt.Sprintf("__n%d", ord)] = n
+				}
+				// $s: the ranged-over slice itself (an unnamed temporary when the loop ranges over a call result)
+				if c, ok := bo.Y.(*ssa.Call); ok {
+					if bi, ok := c.Call.Value.(*ssa.Builtin); ok && bi.Name() == "len" && len(c.Call.Args) == 1 {
+						if sv := x.get(st, c.Call.Args[0]); sv.K == KSlice {
+							st.dbg["__s"] = sv
+							st.dbg[fmt.Sprintf("__s%d", ord)] = sv
+						}
+					}
+				}
+				break
+			}
+		}
 	}
 	which := "established"
 	if isBack {
 		which = "preserved"
 	}
+	// the clauses are proved in order, each relying on the earlier ones (on a copy: the incoming state is not changed)
+	cs := st.clone()
 	for i, inv := range invs {
-		x.specCheckNoAssume(fr, st, fmt.Sprintf("loop%d.inv[%d].%s", ord, i, which), "invariant", inv, b.Instrs[0])
+		x.specCheck(fr, cs, fmt.Sprintf("loop%d.inv[%d].%s", ord, i, which), "invariant", inv, nil, b.Instrs[0])
 	}
 	if isBack {
 		x.endPath()
@@ -494,6 +521,9 @@ func (x *Exec) loopHead(fr *Frame, st *State, b *ssa.BasicBlock, pred *ssa.Basic
 				}
 			}
 		}
+	}
+	if os.Getenv("GOVC_DEBUG") != "" {
+		fmt.Fprintf(os.Stderr, "loop %d of %s: effects all=%v keys=%v\n", ord, x.key, eff.all, sortedKeys(eff.keys))
 	}
 	x.applyEffects(st, eff)
 	// map iterators created before the loop: visited set becomes unknown
